@@ -48,8 +48,10 @@ type Tunnel struct {
 
 // Write puts the packet on the transport and updates the statistics for bytes sent
 func (t *Tunnel) Write(pkt []byte) {
+	verifHook("tun.write.begin", t, len(pkt))
 	n, _ := t.transportOut.WritePacket(pkt)
 	t.BytesSent += int64(n)
+	verifHook("tun.write.end", t, n)
 }
 
 // Read picks up a packet from the transport and returns the packet type
